@@ -24,7 +24,7 @@ use anda_cognitive_nexus::{
     governance::{
         AuthContext, SYSTEM_PRINCIPAL,
         rows::{PolicyStatement, principal_class, status},
-        store::{DelegationDraft, GrantDraft, PolicyDraft, PrincipalDraft},
+        store::{DelegationDraft, GrantDraft, PolicyDraft, PrincipalDraft, delegation_id},
     },
     nexus::DEFAULT_SPACE,
     schema::{PackageState, SchemaLock, SchemaPackage},
@@ -67,11 +67,14 @@ enum Req {
 struct Scenario {
     change: Change,
     req: Req,
+    /// the agent's session names the Delegation it acts under
+    /// (`AuthContext::with_delegation_chain`) instead of naming no chain
+    named: bool,
 }
 
 impl Scenario {
     fn name(&self) -> String {
-        format!("{:?}-{:?}", self.change, self.req)
+        format!("{:?}-{:?}{}", self.change, self.req, if self.named { "-NamedChain" } else { "" })
     }
 }
 
@@ -83,7 +86,12 @@ fn scenarios(quick: bool) -> Vec<Scenario> {
             if quick && (req == Req::Kql && change != Change::RevokeGrant || change == Change::RevokeDelegatorGrant) {
                 continue;
             }
-            out.push(Scenario { change, req });
+            out.push(Scenario { change, req, named: false });
+            // both entry points of a Principal that acts through a Delegation
+            // (quick: the revoked link itself, against the write path)
+            if matches!(change, Change::RevokeDelegation | Change::RevokeDelegatorGrant) {
+                out.push(Scenario { change, req, named: true });
+            }
         }
     }
     out
@@ -186,7 +194,11 @@ fn one_execution(content: &Content, s: Scenario, h: &Handles, ch: &mut Chooser) 
     let (cs, ctl) = CtlStore::over(inner);
     let nexus = util::block_on(connect(cs));
     let owner = nexus.system_session();
-    let agent = nexus.session(AuthContext::principal(AGENT));
+    let agent = nexus.session(if s.named {
+        AuthContext::principal(AGENT).with_delegation_chain(vec![delegation_id(h.delegation)])
+    } else {
+        AuthContext::principal(AGENT)
+    });
     let b_text = match s.req {
         Req::Kml => r#"CREATE CONCEPT ?x { TYPE "Person" NAME "from-B" }"#,
         Req::Kql => r#"FIND(?c.name) WHERE { ?c CONCEPT {} }"#,
@@ -346,7 +358,7 @@ fn main() {
     }
     run.set("scenarios", json!(completed));
     run.set("preemption_bound", json!(bound));
-    run.rule("STEP: 5 control-plane changes (revoke Grant, suspend Principal, revoke Delegation, revoke the delegator's Grant, publish a denying policy version) x agent request (KML write; KQL read for every change in the thorough tier, for the Grant revocation in quick; quick leaves out the delegator's Grant); owner KML task, agent task and host change task over a gated store, every backend call a scheduling point, all schedules with <= B preemptions; distinct = (scenario, refusal required by the schedule, agent refused)");
+    run.rule("STEP: 5 control-plane changes (revoke Grant, suspend Principal, revoke Delegation, revoke the delegator's Grant, publish a denying policy version) x agent request (KML write; KQL read for every change in the thorough tier, for the Grant revocation in quick; quick leaves out the delegator's Grant); an agent acting under a Delegation is run through both entry points (session naming no chain / naming that Delegation); owner KML task, agent task and host change task over a gated store, every backend call a scheduling point, all schedules with <= B preemptions; distinct = (scenario, refusal required by the schedule, agent refused)");
     run.assume("refusal is demanded only where the agent's request can only have begun executing after the change returned: submitted after it, or first polled after the owner's statement (which holds the Nexus write lock from its first poll to its completion) with the change completing before that statement; other schedules may see either authority");
     run.assume("suspension points are the gated store calls and the async locks; code between two of them runs atomically (single-threaded executor)");
     run.finish();
